@@ -90,7 +90,11 @@ def r2(ctx):
     shortcut = None
     for pc, v in out.returns:
         if full and v is full[0]:
-            conds = [c for c in pc if isinstance(c, Cmp) and c.op == '==' and (isinstance(c.lhs, Tup) or isinstance(c.rhs, Tup))]
+            def eqform(c):
+                if isinstance(c, BoolT) and c.op == 'not' and len(c.args) == 1 and isinstance(c.args[0], Cmp) and c.args[0].op == '!=':
+                    return Cmp('==', c.args[0].lhs, c.args[0].rhs)       # not (a != b)
+                return c
+            conds = [c for c in map(eqform, pc) if isinstance(c, Cmp) and c.op == '==' and (isinstance(c.lhs, Tup) or isinstance(c.rhs, Tup))]
             if len(conds) != 1:
                 raise AnalysisError('C05.R2', 'RegionMask.cutout', 'condition of the full-overlap shortcut not recognised: '
                                     + show(list(pc), 300))
